@@ -57,6 +57,19 @@ Theorem c16_partial_no_prefs : forall video audio multi secs e' res k rcs o,
 Proof. exact answer_codecs_offered_no_prefs. Qed.
 Print Assumptions c16_partial_no_prefs.
 
+(* without the single-section premise the payload type is still an offered one
+   for a compatible codec, but possibly of another section of that kind (the
+   negotiated list is shared by the sections of a kind: finding
+   answer-codec-from-other-section-of-kind) *)
+Theorem c16_partial_some_section : forall video audio multi secs e' res k prefs o,
+  k = KVideo \/ k = KAudio ->
+  update_from_remote (new_engine video audio multi) secs = (e', res) ->
+  (prefs = [] \/ (forall p, In p prefs -> c_pt p = 0%N)) ->
+  In o (get_codecs (negotiated_of e' k) prefs) ->
+  exists rcs r, In (k, rcs) secs /\ In r rcs /\ c_pt r = c_pt o /\ compatible o r.
+Proof. exact answer_codecs_offered_somewhere. Qed.
+Print Assumptions c16_partial_some_section.
+
 (* the general form behind c16_partial: any preference list whose entries have
    payload type 0 or a payload type offered for a compatible codec *)
 Theorem c16_partial_grounded : forall offered neg prefs o,
